@@ -418,6 +418,11 @@ def run_c14(ctx, spec):
     # the root-package part (licenseclassifier.License from an archive), if available
     extra = spec.get("root_part")
     ndones = repeats
+    if extra and any(c.get("kind") == "hang" for c in crashes):
+        # a confirmed hang in the stringclassifier part settles the verdict; the License
+        # part sits on the same code and would only wait for its watchdogs as well
+        cov["root_part"] = "skipped: a hang was already confirmed in the stringclassifier part"
+        extra = None
     if extra:
         r = extra(ctx, race_log, only)
         events += r["events"]
@@ -669,7 +674,7 @@ def c14_root_part(ctx, race_log, only):
     if cr1 or not any(e.get("ev") == "done" for e in ev1):
         raise driver.HarnessError("C14 root part: writing the archive failed")
     repeats = {"quick": 2, "thorough": 6}[tier]
-    env = {"GORACE": "halt_on_error=0 log_path=%s" % race_log, "VERIF_WORKERS": "1", "VERIF_CASE_TIMEOUT": "900"}
+    env = {"GORACE": "halt_on_error=0 log_path=%s" % race_log, "VERIF_WORKERS": "1", "VERIF_CASE_TIMEOUT": "300"}
     if only is not None:
         env["VERIF_ONLY"] = str(only)
         repeats = 1
